@@ -18,6 +18,56 @@ CLAIMED = {
     technique="contract-based deductive verification: AST->VC (pyvc), loop invariants, z3"),
 }
 
+WS_NOTE = ("Trusted: z3/cvc5, the pyvc VC generator and its encoding of Python semantics, shapes (field type declarations "
+           "validated against the initialising code), assumed contracts of primitives: transport.write/close, txaio "
+           "call_later/resolve (write-once futures, fresh timer handles), user callbacks do not re-enter the protocol "
+           "object synchronously, Utf8Validator contract (proved in C09), masker interface contract (proved in C15), "
+           "sendFrame's frame-event contract (ghost state). Scheduler and real time are out of reach: 'on time' is "
+           "'armed delay == configured value' plus the scheduler assumption. Termination not verified.")
+CLAIMED.update({
+ "C15": dict(category="proof",
+    text="Every masker implementation (pure-Python simple and table-shifted, NVX C scalar and SSE2 SIMD incl. every buffer "
+         "alignment and length, the cffi wrapper, both dispatchers/factories) is proved against one pointwise spec: "
+         "result[k] == data[k] XOR key[(ptr0+k) mod 4], pointer advanced by len; chunk-independence and involution are "
+         "lemmas over the proved contracts; C integer assignments carry no-overflow, alignment and bounds obligations.",
+    note="Trusted: z3, pyvc, gcc -E + pycparser translation (stated drops), cffi buffer semantics (assumed contracts), "
+         "octet XOR as the defined function bxor8 with its algebraic lemmas checked exhaustively over 2^16 pairs. The "
+         "mask-bit policy of sendFrame is not yet part of this check.",
+    technique="contract-based deductive verification: AST->VC (Python and C), quantified loop invariants, z3"),
+ "C02": dict(category="proof",
+    text="The receive path is under contract function by function: the header decision of processData is proved equal to "
+         "an RFC 6455 section 5.2/5.5 spec function for all 2^16 header octet pairs, all receiver configurations and all "
+         "extended lengths (fail iff violation, 1002 / drop); close-code and close-reason verdicts (1002/1007), UTF-8 "
+         "failure at the first invalid chunk and at an incomplete final code point, ping->pong with equal payload, no "
+         "delivery after failure are postconditions of onCloseFrame/onFrameData/onFrameEnd/processControlFrame/onMessage*.",
+    note=WS_NOTE + " Read-split independence of the payload arm of processData and compressed messages are not covered here.",
+    technique="contract-based deductive verification: AST->VC, spec functions from RFC 6455, z3"),
+ "C05": dict(category="proof",
+    text="Object invariant (at most one close frame, no data frame after it, CLOSED <=> is_closed completed, onClose at most "
+         "once and only in CLOSED) and the forward-only rank are proved for every unit that writes the fields involved "
+         "(sendClose, sendCloseFrame, onCloseFrame, dropConnection, _fail_connection, _protocol_violation, the four timeout "
+         "handlers, _connectionLost x3, sendMessage, sendPing, sendPong); close payload format/limits, clean-close reporting "
+         "and the pending-drop-timer clause are postconditions.",
+    note=WS_NOTE + " Histories: the step-to-history induction is the standard argument over the per-unit obligations; the "
+         "closed-world writer scan and the streaming send API (beginMessage*/sendMessageFrame*) are not yet included.",
+    technique="contract-based deductive verification: two-state object invariant per writer, z3"),
+ "C16": dict(category="other",
+    text="Proof of all obligations except one listed known finding: onMessageFrameBegin/onFrameBegin/processData[header] "
+         "fail with 1009 iff a configured limit is exceeded by the *declared* length, before any payload octet is "
+         "buffered; nothing is buffered or delivered after failing; sendMessage refuses over-limit payloads with nothing "
+         "written (loop invariant over every fragmentation). Known finding (open): deflate decompression cap truncates.",
+    note=WS_NOTE + " zlib is an assumed abstract stream (decompress(data, n) returns at most n octets, rest in unconsumed_tail).",
+    technique="contract-based deductive verification: AST->VC, loop invariants, z3; known finding replayed on real zlib"),
+ "C17": dict(category="proof",
+    text="Timer discipline as contracts: every timeout handler drops with the corresponding unclean reason when its "
+         "condition still holds and has no effect at all in CLOSED; close/server-drop timers are armed with exactly the "
+         "configured delay at the points the property names; pong / traffic cancels the ping timeout and re-arms the next "
+         "ping; _connectionLost cancels what could still act.",
+    note=WS_NOTE + " Arming of the open-handshake timer and the first auto-ping (inside _connectionMade / the handshake "
+         "functions) is not yet under contract.",
+    technique="contract-based deductive verification: ghost timer handles, z3"),
+})
+
 PENDING_REASON = "contracts for this property are not yet discharged in this snapshot of /verif (build in progress, see DESIGN.md section 8); nothing is claimed"
 
 def main():
